@@ -3,3 +3,6 @@ import OratioModel.Arith.InfRational
 import OratioModel.Arith.Lin
 import OratioModel.Driver.Proto
 import OratioModel.Driver.Arith
+import OratioModel.Sat.Basic
+import OratioModel.Sat.Enc
+import OratioModel.Driver.Enc
